@@ -94,7 +94,7 @@ def check(rep):
     import gbigsmiles
     from rdkit import Chem
 
-    coq = fw.coq_check("C18", ["SrcBond"])
+    coq = fw.coq_check("C18", ["SrcBond", "SrcAGen"])
     quick = rep.tier == "quick"
     rnd = random.Random(rep.seed + 18)
     texts = list(EXTRA)
